@@ -145,9 +145,17 @@ def ext_init():
     return [line("ext", j + 1, d=b[:-1], n=b[-1]) for j, b in enumerate(blocks)]
 
 
+_label_memo = {}
+
+
 def label_to_op(name, args):
-    op, i, k, m, d, n, n2 = args
-    return line(op, i, k, m, d, n, n2)
+    # vlib.graph_walks shares one parsed object per distinct label: share the op line too (millions of steps)
+    key = id(args)
+    v = _label_memo.get(key)
+    if v is None or v[0] is not args:
+        op, i, k, m, d, n, n2 = args
+        v = _label_memo[key] = (args, line(op, i, k, m, d, n, n2))
+    return v[1]
 
 
 def count_nops(ctx, tag):
@@ -178,24 +186,34 @@ def run(ctx):
     r = vlib.tlc(SPECDIR, "ByteStrings", "ByteStrings_small.cfg" if ctx.quick else "ByteStrings.cfg", workers=4, timeout=900)
     ctx.add_tlc("ByteStrings", r)
     # 2. Layer 2: the copy-on-write representation refines Layer 1; its state graph is dumped and every edge
-    #    becomes an implementation test (direction A)
-    cfg = "CowStringImpl_small.cfg" if ctx.quick else "CowStringImpl.cfg"
-    dot = os.path.join(ctx.work, "cow.dot")
-    r = vlib.tlc(SPECDIR, "CowStringImpl", cfg, workers=6, timeout=2400, dump=dot, coverage=False, xmx="8g")
-    ctx.add_tlc("CowStringImpl", r)
-    if r.ok:
+    #    becomes an implementation test (direction A).  quick: 2 variables, source states with strings <= 1 byte, all
+    #    operations; thorough: the same + 2 variables / <= 2 bytes + 3 variables / <= 1 byte (reduced operation sets,
+    #    see the Skip constant of the cfg files)
+    cfgs = ["CowStringImpl_small.cfg"] if ctx.quick else ["CowStringImpl_small.cfg", "CowStringImpl.cfg", "CowStringImpl_nv3.cfg"]
+    pre = ext_init()
+    labels = {}
+    ctx.notes["graph_edges_replayed"] = 0
+    for n, cfg in enumerate(cfgs):
+        dot = os.path.join(ctx.work, "cow%d.dot" % n)
+        r = vlib.tlc(SPECDIR, "CowStringImpl", cfg, workers=6, timeout=2400, dump=dot, coverage=False, xmx="8g")
+        ctx.add_tlc("CowStringImpl/" + cfg, r)
+        if not r.ok:
+            continue
         walks, nedges = vlib.graph_walks(dot, max_len=120, seed=ctx.seed)
         os.remove(dot)
-        pre = ext_init()
         execs = [pre + [label_to_op(*st) for st in w] for w in walks]
-        ctx.notes["graph_edges_replayed"] = nedges
-        labels = {}
+        ctx.notes["graph_edges_replayed"] += nedges
         for w in walks:
             for st in w:
                 labels[st[1][0]] = labels.get(st[1][0], 0) + 1
-        ctx.notes["graph_ops"] = labels
-        check_executions(ctx, binary, execs, "graph")
-        count_nops(ctx, "graph")
+        del walks
+        check_executions(ctx, binary, execs, "graph%d" % n)
+        count_nops(ctx, "graph%d" % n)
+        if ctx.notes.get("ops_refused_graph%d" % n):
+            ctx.broken.append("driver refused %d operations generated from the %s state graph (domain of driver and "
+                              "specification differ)" % (ctx.notes["ops_refused_graph%d" % n], cfg))
+        del execs
+    ctx.notes["graph_ops"] = labels
     # 3. direction B: random histories on three real String variables, validated by TLC against ByteStrings
     nexec, nops = (500, 40) if ctx.quick else (8000, 60)
     execs = [rand_exec(ctx.rng, nops) for _ in range(nexec)]
@@ -209,6 +227,18 @@ def run(ctx):
                        "every edge of the CowStringImpl state graph (TLC) replayed on real String objects + seeded random "
                        "op histories over three String variables, two external blocks and a token list; every step "
                        "validated by TLC against ByteStrings; distinct = distinct op sequences of length >= 2")
+
+
+def selftest(ctx):
+    """The Layer-2 model with prepend / replace transcribed as they were before the fixes of findings F7 / F8:
+    TLC must report both (RefinementOK for prepend(self), NoErr = strstr past the text for replace)."""
+    ok = True
+    for cfg, inv in (("CowStringImpl_orig.cfg", "RefinementOK"), ("CowStringImpl_orig_f8.cfg", "NoErr")):
+        r = vlib.tlc(SPECDIR, "CowStringImpl", cfg, workers=2, timeout=600)
+        hit = bool(r.violation) and ("Invariant %s is violated" % inv) in r.violation
+        vlib.log("selftest %s: %s" % (cfg, "TLC reports %s as expected" % inv if hit else "NOT reported"))
+        ok = ok and hit
+    return 0 if ok else 2
 
 
 def replay(ctx, path):
